@@ -15,3 +15,15 @@ package signing
 //@     invariant true
 //@   loop range(partialSignatures.Iter())#2
 //@     invariant true
+
+// ---------------------------------------------------------------- randomness provenance (C07)
+// Round 1: the nonce share k and the opening of the nonce commitment are drawn from THIS cosigner's reader during this
+// call; R is [k]G for exactly that k and what is broadcast is the commitment to R under exactly that opening.
+//@ func (*Cosigner).Round1
+//@   property C07
+//@   uses reader
+//@   ensures err == nil ==> ownDraw(box(c.state.k), old(shk(c.prng)), shk(c.prng))
+//@   ensures err == nil ==> c.state.bigR == c.group.ScalarBaseOp(c.state.k)
+//@   ensures err == nil ==> ownDraw(box(c.state.opening), old(shk(c.prng)), shk(c.prng))
+//@   ensures err == nil && has(c.cks, c.SharingID()) ==> result.BigRCommitment == res(c.cks[c.SharingID()].CommitWithWitness(c.state.bigR.Bytes(), c.state.opening), 0)
+//@   ensures c.prng == old(c.prng)
